@@ -434,12 +434,11 @@ with ccases (ctx:list frame) (cs:cases) {struct cs} : list (list tstmt) :=
   end.
 
 (* ---------------------------------------------------------------- <close> desugaring (visit_close) *)
-(* visit_close runs for a variable when its type is known and inserts the defer at
-   (declattr.closeindex or statindex) + 1, i.e. after the defers inserted before: the injected defers
-   follow the order in which the types get resolved - variables whose type is known in the first pass
-   (declaration order), then the late ones *)
-Definition close_order (ks:list (nat * bool)) : list nat :=
-  map fst (filter (fun p => negb (snd p)) ks) ++ map fst (filter (fun p => snd p) ks).
+(* visit_close runs for a variable when its type is known (possibly in a later resolution pass, flag
+   `late`) and inserts its defer after the declaration and after the already injected defers of the EARLIER
+   variables of the declaration: whatever the resolution order, the injected defers follow the
+   declaration order *)
+Definition close_order (ks:list (nat * bool)) : list nat := map fst ks.
 
 Fixpoint close_defers (ks:list nat) (rest:block) : block :=
   match ks with
